@@ -277,6 +277,16 @@ func finishResult(r *Run, res *RunResult, base uint64, env *Env) {
 
 // Replay executes a trace literally.
 func Replay(t *Trace, st *Stats, env *Env) *RunResult {
+	for _, pt := range t.Prelude {
+		pr := NewRun(pt.Prop, pt.NP, pt.NS, pt.NE, pt.Opts, NewStats())
+		pr.Known = env.Known
+		pr.PkgSnap = env.PkgSnap
+		for _, c := range pt.Calls {
+			if v := pr.Step(c); v != nil || pr.Foreign != nil {
+				break
+			}
+		}
+	}
 	r := NewRun(t.Prop, t.NP, t.NS, t.NE, t.Opts, st)
 	r.Known = env.Known
 	r.PkgSnap = env.PkgSnap
